@@ -364,8 +364,9 @@ _FSRC = {}
 
 
 def _func_src(f):
+    """Identifiers used in the (normalised) function: a cheap pre-filter for the name searches."""
     if f.key not in _FSRC:
-        _FSRC[f.key] = ast.get_source_segment(f.module.src, f.node) or ""
+        _FSRC[f.key] = {n.id if isinstance(n, ast.Name) else n.attr for n in ast.walk(f.node) if isinstance(n, (ast.Name, ast.Attribute))}
     return _FSRC[f.key]
 
 
